@@ -202,7 +202,7 @@ func baseHistories() []baseHist {
 	}
 }
 
-var termCauses = []string{"shutdown", "client-disconnect", "broker-close", "broker-garbage", "broker-illegal", "sn-garbage", "sn-short", "illegal-packet"}
+var termCauses = []string{"shutdown", "client-disconnect", "broker-close", "broker-reset", "broker-garbage", "broker-illegal", "sn-garbage", "sn-short", "illegal-packet"}
 
 type termCase struct {
 	h     int
@@ -215,7 +215,7 @@ func termCases() []termCase {
 	for hi, h := range baseHistories() {
 		for cut := 0; cut <= len(h.steps); cut++ {
 			for _, cz := range termCauses {
-				if h.name == "stalled-broker" && cut >= 3 && cz != "shutdown" && cz != "broker-close" {
+				if h.name == "stalled-broker" && cut >= 3 && cz != "shutdown" && cz != "broker-close" && cz != "broker-reset" {
 					// the session's MQTT-SN loop is blocked writing to the broker: it cannot
 					// see client packets at all; only shutdown and a broker close reach it
 					continue
